@@ -1,0 +1,12 @@
+//go:build verif
+
+package vm
+
+import "github.com/go-python/gpython/py"
+
+const verifEnabled = true
+
+// VerifInstr, when set (verification builds only), is called before every
+// instruction is dispatched with the frame, the decoded instruction and the
+// address it was fetched from.
+var VerifInstr func(frame *py.Frame, opcode OpCode, arg int32, addr int32)
